@@ -6,6 +6,8 @@ import PyamgV.Proofs.C14Out
 import PyamgV.Proofs.C14Tail
 import PyamgV.Proofs.C14KNum
 import PyamgV.Proofs.C14Evol
+import PyamgV.Proofs.ExtC14Energy
+import PyamgV.Proofs.ExtC14Evol
 
 /-! # C14 — strength-of-connection matrices obey the common contract and their rules
 
@@ -126,6 +128,59 @@ restate energy_tail_contract := PyamgV.C14.energyTailRow_contract
 with the real function on the values observed at the drop-tolerance filter): columns ⊆ {diagonal} ∪ filter
 pattern ∪ (with `symmetrize_measure`) its transpose; diagonal always present; [0,1]; every row attains 1 -/
 restate evolution_tail_contract := PyamgV.C14.evolTail_contract
+
+/-! ### extension E28: the whole of the energy and evolution measures (models `energyFull`, `evolFull` of
+`Model/ExtC14Energy.lean`, `Model/ExtC14Evol.lean`; ops `ext_c14_energy`, `ext_c14_evol`; compared on every run with the
+real functions -- the measure / `Atilde` / strength values observed inside the call and the returned matrix).  The only
+input not recomputed is the spectral-radius estimate, recorded from the real call. -/
+
+/-- `energy_based_strength_of_connection` (canonical CSR; weighted-Jacobi approximate inverse, energy inner products,
+`val > -0.01` rule, drop rule with `theta`, `+ I`, row scaling), for EVERY square-root function, `ω`, `k`, `θ`: columns of
+row `i` inside the stored columns of row `i` of `A` plus the diagonal, diagonal always stored, entries in `[0,1]`,
+row maximum `1` -/
+restate energy_full_contract := PyamgV.C14.energyFull_contract
+/-- which entries survive: `j = i`, or `A` stores `(i,j)` and the energy measure `m_ij ≠ 0`, `m_ij ≥ θ·max(tiny, max_{k≠i} m_ik)` -/
+restate energy_full_rule := PyamgV.C14.energyFull_rule
+restate energy_full_rowwise := PyamgV.C14.energyFull_row
+restate energy_full_shape := PyamgV.C14.energyFull_length
+/-- the tail contract without the "no subnormal measure values" hypothesis of `energy_tail_contract` -/
+restate energy_tail_contract_unconditional := PyamgV.C14.energyTailRow_contract_any
+restate energy_tail_rule := PyamgV.C14.energyTailRow_rule
+/-- the measure is non-negative -/
+restate energy_measure_nonneg := PyamgV.C14.enVal_nonneg
+/-- the dense arrays of the model hold the weighted-Jacobi recurrence `S_{t+1} = S_t + ω D⁻¹ (I - A S_t)`, `S_0 = 0` -/
+restate energy_jacobi_recurrence := PyamgV.C14.enS_succ_entry
+restate energy_jacobi_start := PyamgV.C14.enS_zero_entry
+/-- the square root the driver plugs in: `s² ≤ q < (s + 1/(den·2^p))²` -/
+restate energy_sqrt_approx := PyamgV.C14.sqrtApprox_spec
+
+/-- `evolution_strength_of_connection` (canonical CSR, one candidate vector -- default `B = ones` --, `k = 2^(m+1)`,
+finite `epsilon`, both `symmetrize_measure` settings): the contract for the returned matrix, for every recorded `1/ρ` -/
+restate evolution_full_contract := PyamgV.C14.evolFull_contract
+/-- `my_inner` (two-pointer loop of `incomplete_mat_mult_csr`) on sorted duplicate-free index lists is the sparse dot product -/
+restate incomplete_mat_mult_inner := PyamgV.C14.mergeInner_spec
+/-- … on the stored row `i` / column `j` of a dense matrix it is `Σ_k M(i,k)·M(k,j)`, the entry of the matrix square -/
+restate incomplete_mat_mult_entry := PyamgV.C14.myInner_spec
+restate incomplete_mat_mult_is_square := PyamgV.C14.myInner_eq_matSq
+/-- `k = 2`: `Atilde` is `((I - c D⁻¹A)²)ᵀ` on the stored non-zero pattern of `A` -/
+restate evolution_k2_atilde := PyamgV.C14.evAtilde_k2
+/-- the `NullDim == 1` strength rule (weak ratio, obtuse angle, near-perfect connection) entry by entry -/
+restate evolution_strength_rule := PyamgV.C14.evStrengthRow_rule
+/-- strength values: non-negative, inside the stored pattern of `A` -/
+restate evolution_measure_spec := PyamgV.C14.evMeasure_spec
+
+/-! non-vacuity of the E28 models: a 3x3 M-matrix; at `θ = 1/2` the energy measure keeps `(1,2)` with value `82/163`, at
+`θ = 3/4` it is dropped; the evolution measure (`k = 2`, `c = 1/2`, `B = ones`, `ε = 4`, symmetrised) -/
+example : energyFull (sqrtApprox 4) (1/2) (-1/100) (1/1024) (1/2) 1 [[(0, 2), (1, -1)], [(0, -1), (1, 2), (2, -1)], [(1, -1), (2, 4)]]
+    = [[(0, 1), (1, 1)], [(0, 1), (1, 1), (2, 82/163)], [(1, 1), (2, 1)]] := by decide +kernel
+example : energyFull (sqrtApprox 4) (1/2) (-1/100) (1/1024) (3/4) 1 [[(0, 2), (1, -1)], [(0, -1), (1, 2), (2, -1)], [(1, -1), (2, 4)]]
+    = [[(0, 1), (1, 1)], [(0, 1), (1, 1)], [(1, 1), (2, 1)]] := by decide +kernel
+example : evAtilde (1/2) 0 [[(0, 2), (1, -1)], [(0, -1), (1, 2), (2, -1)], [(1, -1), (2, 4)]]
+    = [[(0, 5/16), (1, 1/4)], [(0, 1/4), (1, 11/32), (2, 1/8)], [(1, 1/4), (2, 9/32)]] := by decide +kernel
+example : evolFull 1000000 (1/1024) 4 (1/8192) (1/67108864) (1/8192) (1/2) 0 true #[1, 1, 1]
+      [[(0, 2), (1, -1)], [(0, -1), (1, 2), (2, -1)], [(1, -1), (2, 4)]]
+    = [[(0, 5/16), (1, 1)], [(0, 1/5), (1, 1/16), (2, 1)], [(1, 1), (2, 1/16)]] := by decide +kernel
+example : myInner [(0, 2), (2, 3), (5, 1)] [(1, 7), (2, 1/2), (5, 4)] = 11/2 := by decide +kernel
 
 /-! non-vacuity: row 0 of `[[4,-1,-2],[…]]` at θ = 1/2 keeps the diagonal and the tie-free strong entry;
 an exact tie (`|-1| = 1/2 · |-2|`) is kept; the public row is `[1, 1/4, 1/2]` -/
